@@ -163,10 +163,15 @@ def region_obligations(ix, R):
         c = rf.const() if isinstance(rf, RF) else None
         return int(c) if c is not None and c in (0, -1) else None
 
-    def kind(e):
+    def kind(e, assign=None):
         if e.kind == 'raise':
             return ('raise',)
         v = e.value
+        if assign is not None:
+            # selections inside the returned expression (an edge index chosen by `-1 if above else 0`) are settled by
+            # the region being examined
+            from sa.helpers import resolve_guards
+            v = resolve_guards(fl, v, lambda c: reg.ev(c, assign))
         at = atom_of(fl, v)
         if at is None:
             return ('unknown', fmt(fl, v))
@@ -202,7 +207,10 @@ def region_obligations(ix, R):
         if not hits:
             why.append('no exit reachable')
         for e in hits:
-            k = kind(e)
+            k = kind(e, dict(PMAX=PMAX, TMAX=TMAX, PMIN=PMIN, TMIN=TMIN))
+            if k[0] in ('node', 'tonly', 'ponly') and None in k[1:]:
+                raise AnalysisError('region {%s}: the edge index of `%s` is not settled by the region' % (
+                    name, unparse(e.value_ast)[:80]))
             if k[0] == 'raise':
                 if not any(reg.ev(g.rf, dict(PMAX=PMAX, TMAX=TMAX, PMIN=PMIN, TMIN=TMIN)) is None
                            for g in e.guards):
